@@ -2,6 +2,7 @@ package main
 
 import (
 	"fmt"
+	"reflect"
 	"slices"
 	"sort"
 
@@ -9,8 +10,12 @@ import (
 )
 
 // family rtree: the case format of family trie against the real radixtree.Tree, plus {"op":"dump"} returning the
-// canonical structural dump of the current tree (unexported fields through radixtree.VerifRTreeDump).
+// canonical structural dump of the current tree (unexported fields through radixtree.VerifRTreeDump, see
+// rtree_dump.go; without that optional file a dump answers "nodump").
 func init() { families["rtree"] = runRTree }
+
+// rtreeDump is set by rtree_dump.go, the only file of this family that needs white-box access to the tree
+var rtreeDump func(tree *radixtree.Tree[*trieVal]) any //nolint:gochecknoglobals
 
 func runRTree(c map[string]any) (any, error) {
 	tree := radixtree.New[*trieVal](radixtree.WithValuesConstraints(func(old []*trieVal, nv *trieVal) bool {
@@ -23,6 +28,11 @@ func runRTree(c map[string]any) (any, error) {
 		op := obj(o)
 		switch getStr(op, "op") {
 		case "batch":
+			var before any
+			if rtreeDump != nil {
+				before = rtreeDump(tree)
+			}
+
 			tmp := tree.Clone()
 			res := "ok"
 
@@ -48,13 +58,22 @@ func runRTree(c map[string]any) (any, error) {
 				}
 			}
 
+			// whatever happened to the clone, the tree it was taken from is what it was (Clone is a deep copy)
+			if rtreeDump != nil && !reflect.DeepEqual(before, rtreeDump(tree)) {
+				res += "!the-cloned-tree-changed"
+			}
+
 			if res == "ok" {
 				tree = tmp
 			}
 
 			out = append(out, res)
 		case "dump":
-			out = append(out, radixtree.VerifRTreeDump(tree, func(v *trieVal) int { return v.id }))
+			if rtreeDump == nil {
+				out = append(out, "nodump")
+			} else {
+				out = append(out, rtreeDump(tree))
+			}
 		default:
 			acc := getInts(op, "acc")
 			entry, err := tree.Find(getStr(op, "path"),
